@@ -592,10 +592,15 @@ func cmdCheck(args []string) int {
 	// ---- replay candidates natively
 	replayDir := filepath.Join(verifDir, "evidence", "replays")
 	os.MkdirAll(replayDir, 0o755)
+	// replay files carry the process id, so concurrent runs for one property (quick and thorough, a seed run) never
+	// touch each other's files; files of earlier runs are removed once they are 30 minutes old
 	old, _ := filepath.Glob(filepath.Join(replayDir, *prop+"-*.json"))
 	for _, f := range old {
-		os.Remove(f)
+		if st, err := os.Stat(f); err == nil && time.Since(st.ModTime()) > 30*time.Minute {
+			os.Remove(f)
+		}
 	}
+	runTag := fmt.Sprintf("%s-%d", *prop, os.Getpid())
 	violations, knownHits := 0, map[string]string{}
 	replayed := 0
 	seenKey := map[string]int{}
@@ -619,7 +624,7 @@ func cmdCheck(args []string) int {
 		}
 		rf := &replayFile{Property: *prop, Harness: c.Harness, Package: pkgOf[c.Harness], AssertID: c.AssertID, Kind: c.Kind,
 			Msg: c.Msg, Known: c.Known, Tape: c.Tape, Decisions: c.Decisions, Where: c.Where, PathCond: c.PathCond}
-		path := filepath.Join(replayDir, fmt.Sprintf("%s-%d.json", *prop, replayed+1))
+		path := filepath.Join(replayDir, fmt.Sprintf("%s-%d.json", runTag, replayed+1))
 		data, _ := json.MarshalIndent(rf, "", " ")
 		os.WriteFile(path, data, 0o644)
 		var line, full string
